@@ -2,7 +2,8 @@ SPECIFICATION Spec
 CONSTANTS
   MaxSrv = 10
   MaxCli = 3
+  ReqBuf = 16
   Cfgs <- AllCfgs
   Lite = "srv"
-INVARIANTS TypeOK S1_ExitResult S2_Conservation S2_NoDataLoss S3_StartOnce S5_StdinEOF S6_StartFailure S7_ReplyValue S8_NoStuckCall EmitEnd
+INVARIANTS TypeOK S1_ExitResult S2_Conservation S2_NoDataLoss S3_StartOnce S5_StdinEOF S6_StartFailure S7_ReplyValue S8_NoStuckCall S9_NoStall EmitEnd
 CHECK_DEADLOCK FALSE
